@@ -106,7 +106,8 @@ func conformance(a, b *Result) []string {
 			out = append(out, "job "+k+" ran under the model job but not with real processes")
 		default:
 			if x.Args != nil && y.Args != nil {
-				if d := progen.EqSlack(x.Args, y.Args, "args"); d != "" {
+				// (the "__" keys are resource settings of the job manager configuration)
+				if d := progen.EqSlack(dropInternal(x.Args), dropInternal(y.Args), "args"); d != "" {
 					out = append(out, "job "+k+": arguments differ between model and real run: "+d)
 				}
 			} else if (x.Args == nil) != (y.Args == nil) {
@@ -242,7 +243,7 @@ func TierBDataflow(r *ev.Run, prop string) {
 		// the same program with its stages written in python (the python
 		// adapter hands the stage code its arguments): programs one step from
 		// the base (thorough: two)
-		if c.Family == "dataflow" && len(ref.Jobs) > 0 && pyProgram(c, r.Thorough()) && !time.Now().After(deadline) {
+		if prop != "C02" && c.Family == "dataflow" && len(ref.Jobs) > 0 && pyProgram(c, r.Thorough()) && !time.Now().After(deadline) {
 			pc := BCase{Tier: "B", Shape: c, Py: true}
 			pv, pres, pbr := evalB(prop, pc, p, ref)
 			if pbr.Err == "" {
@@ -262,6 +263,9 @@ func TierBDataflow(r *ev.Run, prop string) {
 		// so that everything that does not wait for it overtakes it
 		if prop != "C02" && !r.Thorough() {
 			continue
+		}
+		if !r.Thorough() && !(c.Family == "dataflow" && pyProgram(c, false)) {
+			continue // quick: the programs one step from the base
 		}
 		var keys []string
 		for _, j := range res.Jobs {
